@@ -63,7 +63,57 @@ func classify(err error, panicked bool) int {
 
 // Build constructs the *bt.Tx through the public API; an input whose Txid is "" has no previous
 // txid recorded (txgen.Build insists on 32 bytes).
+// arena: every script of a built transaction is a window on ONE buffer, laid out one after the other in the order
+// outputs' scripts, previous scripts, unlocking scripts (as when they are sliced, without copying, out of raw
+// transactions): each has spare capacity, and what lies in that capacity is the next script. An append onto a
+// script, or a write past its end, shows as a change of the transaction.
+type arena struct{ buf []byte }
+
+func (a *arena) put(b []byte) []byte {
+	n := len(a.buf)
+	a.buf = append(a.buf, b...)
+	return a.buf[n:len(a.buf)]
+}
+
+// Build makes the transaction of a spec; every other call lays its scripts out in one arena.
+var buildCount int
+
 func Build(s txgen.TxSpec) *bt.Tx {
+	tx := build(s)
+	buildCount++
+	if buildCount%2 == 0 {
+		total := 0
+		for _, in := range tx.Inputs {
+			if in.UnlockingScript != nil {
+				total += len(*in.UnlockingScript)
+			}
+			if in.PreviousTxScript != nil {
+				total += len(*in.PreviousTxScript)
+			}
+		}
+		for _, o := range tx.Outputs {
+			total += len(*o.LockingScript)
+		}
+		a := &arena{buf: make([]byte, 0, total+64)}
+		for _, o := range tx.Outputs {
+			o.LockingScript = bscript.NewFromBytes(a.put(*o.LockingScript))
+		}
+		for _, in := range tx.Inputs {
+			if in.PreviousTxScript != nil {
+				in.PreviousTxScript = bscript.NewFromBytes(a.put(*in.PreviousTxScript))
+			}
+		}
+		for _, in := range tx.Inputs {
+			if in.UnlockingScript != nil {
+				in.UnlockingScript = bscript.NewFromBytes(a.put(*in.UnlockingScript))
+			}
+		}
+		a.put(make([]byte, 64)) // the last script has something after it too
+	}
+	return tx
+}
+
+func build(s txgen.TxSpec) *bt.Tx {
 	tx := &bt.Tx{Version: s.Version, LockTime: s.Lock}
 	for _, in := range s.Ins {
 		i := &bt.Input{PreviousTxOutIndex: in.Vout, SequenceNumber: in.Seq, PreviousTxSatoshis: in.Sats}
@@ -145,6 +195,7 @@ func (r *Runner) one(s txgen.TxSpec, tx *bt.Tx, idx uint32, ht uint8) call {
 	c := r.C
 	k := call{Idx: idx, HT: ht}
 	in := map[string]interface{}{"tx": s, "index": idx, "hash_type": ht}
+	c.InFlight(r.api+"/process-abort", in) // (Tx.Clone inside the legacy digest ends the process when its own bytes do not parse)
 	before := snap(tx)
 
 	var pre, hash []byte
@@ -213,6 +264,11 @@ func (r *Runner) one(s txgen.TxSpec, tx *bt.Tx, idx uint32, ht uint8) call {
 		if !bytes.Equal(hash, wantHash) {
 			c.Violate("CalcInputSignatureHash/hash-differs-from-specification", fmt.Sprintf("library %x, specification %x", hash, wantHash), in)
 		}
+	}
+	// the returned hash is the caller's to do with as it likes (reverse it in place for display, reuse the
+	// buffer): whatever it does must not show in any later result
+	for i := range hash {
+		hash[i] ^= 0xa5
 	}
 	c.Tally(fmt.Sprintf("call/class=%d", k.PreCls))
 	if one {
